@@ -101,7 +101,8 @@ package allocator
 //@     InvMaps(a) && InvSvc(a, on, svc, al, i) && InvPorts(a, on, svc, al, i, j) && InvKeys(a, on, svc, al) && InvAllocs(a, on, al)
 //@ pred Inv(a *Allocator) := InvG(a, false, "", nil, 0, 0)
 // InvD: every service has its own record (Assign makes a fresh one; SetPools re-records the same one for the same service).
-//@ pred InvD(a *Allocator) := forall s1 string, s2 string :: { mapval(a.allocated, s1), mapval(a.allocated, s2) } s1 != s2 && a.allocated[s1] != nil ==> a.allocated[s1] != a.allocated[s2]
+//@ pred InvD(a *Allocator) := (forall s1 string, s2 string :: { mapval(a.allocated, s1), mapval(a.allocated, s2) } s1 != s2 && a.allocated[s1] != nil ==> a.allocated[s1] != a.allocated[s2])
+//@     && (forall s string :: { mapdom(a.allocated, s) } (s in a.allocated) ==> a.allocated[s] != nil)
 // ---- C20: the pool counters are read by the pool-status reconciler concurrently ----
 //@ guarded_by Allocator.countersMutex : Allocator.poolToCounters
 
@@ -154,6 +155,8 @@ package allocator
 //@   ensures forall s string :: s != svc ==> a.allocated[s] == old(a.allocated[s])
 //@   ensures [poolsSame] a.pools == old(a.pools) && (forall n string :: (n in a.pools.ByName) == old(n in a.pools.ByName) && a.pools.ByName[n] == old(a.pools.ByName[n]))
 //@   loop 1 invariant forall n string :: (n in a.pools.ByName) == old(n in a.pools.ByName) && a.pools.ByName[n] == old(a.pools.ByName[n])
+//@   ensures [dom] forall s string :: (s in a.allocated) == (s == svc || old(s in a.allocated))
+//@   loop 1 invariant forall s string :: (s in a.allocated) == (s == svc || old(s in a.allocated))
 //@   loop 1 invariant a.allocated[svc] == alloc && alloc == old(alloc) && svc == old(svc)
 //@   loop 1 invariant forall s string :: s != svc ==> a.allocated[s] == old(a.allocated[s])
 //@   loop 1 invariant InvMaps(a)
@@ -178,6 +181,10 @@ package allocator
 //@   assert before updatePoolStats: [exitPorts] InvPorts(a, false, "", nil, 0, 0)
 //@   assert before updatePoolStats: [exitKeys] InvKeys(a, false, "", nil)
 //@   assert before updatePoolStats: [exitAllocs] InvAllocs(a, false, nil)
+//@   assert before len#2: [noneDone] forall x string, p Port :: !DonePort(alloc, idx(1), 0, x, p)
+//@   assert before len#2: [otherPorts] let xi := net.ipstr(ip) in forall x string :: { mapval(a.portsInUse, x) } x != xi ==> a.portsInUse[x] == head(a.portsInUse[x])
+//@   assert before len#2: [herePorts] let xi := net.ipstr(ip) in head(xi in a.portsInUse) ==> a.portsInUse[xi] == head(a.portsInUse[xi])
+//@   assert before len#2: [hereFresh] let xi := net.ipstr(ip) in !head(xi in a.portsInUse) ==> (forall p Port :: !(p in a.portsInUse[xi]))
 //@   assert before len#1: [safe2] SafeFor(a, svc, alloc)
 //@   assert before len#1: [svcNowhere] forall x string :: !(svc in a.servicesOnIP[x])
 //@   assert before len#1: [entryOwns] forall in bool, cur *alloc, s string, x string, p Port :: cur != nil ==> OwnsPortA(in, cur, s, p) == OwnsPortG(in, cur, false, "", nil, 0, 0, s, x, p)
@@ -238,6 +245,9 @@ package allocator
 //@   ensures forall s string :: s != svc ==> a.allocated[s] == old(a.allocated[s])
 //@   ensures [poolsSame] forall n string :: (n in a.pools.ByName) == old(n in a.pools.ByName) && a.pools.ByName[n] == old(a.pools.ByName[n])
 //@   ensures [released] forall x string, s string :: (s in a.servicesOnIP[x]) == (old(s in a.servicesOnIP[x]) && s != svc)
+//@   ensures [dom] forall s string :: s != svc ==> (s in a.allocated) == old(s in a.allocated)
+//@   ensures [domSvc] (svc in a.allocated) ==> old(svc in a.allocated) && old(a.allocated[svc]) == nil
+//@   loop 1 invariant forall s string :: (s in a.allocated) == (s != svc && old(s in a.allocated))
 //@   loop 1 invariant al != nil && al == old(a.allocated[svc]) && a.allocated[svc] == nil
 //@   loop 1 invariant forall s string :: s != svc ==> a.allocated[s] == old(a.allocated[s])
 //@   loop 1 invariant forall n string :: (n in a.pools.ByName) == old(n in a.pools.ByName) && a.pools.ByName[n] == old(a.pools.ByName[n])
@@ -820,10 +830,46 @@ package allocator
 //@   ensures [unlocked] lockstate(a.countersMutex) == 0 && lockframe(a.countersMutex)
 //@   modifies map(a.poolToCounters), fresh *ipaddr.Prefix, fresh *ipaddr.Cursor, fresh *ipaddr.Position, fresh []ipaddr.Prefix, gint("cursor.pos"), fresh []string, $held
 
-// SetPools: only its lock discipline is verified so far (it rewrites the counters map under countersMutex and
-// must not hold that lock when it calls Unassign / assign / updatePoolStats, which take it themselves).
+// ---- C03: SetPools keeps every allocation whose addresses are still inside a pool (re-homed if the pool changed name) ----
+// StillIn: some pool of the configuration contains all addresses of the record.
+//@ pred StillIn(pools map[string]*config.Pool, al *alloc) := exists n string :: (n in pools) && AllInPool(pools[n], al.ips)
+// Homed: the record names a configured pool that contains its addresses.
+//@ pred Homed(pools map[string]*config.Pool, al *alloc) := (al.pool in pools) && AllInPool(pools[al.pool], al.ips)
+// maps of different Go types are different objects (typing fact about the new configuration's index)
+//@ pred NewIndexDistinct(a *Allocator, pools *config.Pools) := distinct(a.allocated, a.sharingKeyForIP, a.portsInUse, a.servicesOnIP, a.poolIPsInUse, a.poolIPV4InUse, a.poolIPV6InUse, pools.ByName)
+
+// the deferred notification of changed pools
+//@ func (*Allocator).SetPools$1
+//@   requires a != nil && a.countersChangedCallback != nil
+//@   modifies nothing
+
 //@ func (*Allocator).SetPools
-//@   lockonly
-//@   requires a != nil && lockstate(a.countersMutex) == 0
-//@   ensures lockstate(a.countersMutex) == 0
-//@   modifies $held
+//@   requires [inv] Inv(a) && InvD(a)
+//@   requires [cb] a.countersChangedCallback != nil
+//@   requires [pools] pools != nil && pools.ByName != nil && PoolsKeyedOK(pools.ByName) && NewIndexDistinct(a, pools) && PoolsOK(a.pools.ByName)
+//@   requires [unlocked] lockstate(a.countersMutex) == 0
+//@   ensures [unlocked] lockstate(a.countersMutex) == 0 && lockframe(a.countersMutex)
+//@   ensures [inv] Inv(a) && InvD(a) && a.pools == pools
+//@   ensures [kept] forall s string :: old(a.allocated[s]) != nil && old(StillIn(pools.ByName, a.allocated[s])) ==> a.allocated[s] == old(a.allocated[s])
+//@   ensures [dropped] forall s string :: old(a.allocated[s]) != nil && !old(StillIn(pools.ByName, a.allocated[s])) ==> a.allocated[s] == nil
+//@   ensures [noNew] forall s string :: a.allocated[s] != nil ==> a.allocated[s] == old(a.allocated[s])
+//@   ensures [sameIPs] forall s string :: old(a.allocated[s]) != nil ==> sameSlice(old(a.allocated[s]).ips, old(a.allocated[s].ips))
+//@   ensures [home] forall s string :: a.allocated[s] != nil ==> Homed(pools.ByName, a.allocated[s])
+//@   modifies map[string]*alloc, map[Port]string, map[string]bool, map[string]int, map[string]PoolCounters, alloc.pool, a.pools, fresh *ipaddr.Prefix, fresh *ipaddr.Cursor, fresh *ipaddr.Position, fresh []ipaddr.Prefix, gint("cursor.pos"), fresh []string, fresh []interface{}, $held
+//@   loop 1 invariant lockframe(a.countersMutex)
+//@   loop 2 invariant lockframe(a.countersMutex)
+//@   loop 3 invariant lockframe(a.countersMutex)
+//@   loop 1 invariant lockstate(a.countersMutex) == 2 && Inv(a) && InvD(a) && a.pools == old(a.pools) && (forall s string :: a.allocated[s] == old(a.allocated[s]))
+//@   loop 2 invariant lockstate(a.countersMutex) == 0 && Inv(a) && InvD(a) && a.pools == pools
+//@   loop 2 invariant pools.ByName != nil && PoolsKeyedOK(pools.ByName) && (forall n string :: (n in pools.ByName) == old(n in pools.ByName) && pools.ByName[n] == old(pools.ByName[n]))
+//@   loop 2 invariant forall s string :: a.allocated[s] != nil ==> a.allocated[s] == old(a.allocated[s])
+//@   loop 2 invariant forall s string :: !(s in visited) ==> a.allocated[s] == old(a.allocated[s])
+//@   loop 2 invariant forall s string :: (s in visited) && old(a.allocated[s]) != nil && old(StillIn(pools.ByName, a.allocated[s])) ==> a.allocated[s] == old(a.allocated[s]) && Homed(pools.ByName, a.allocated[s])
+//@   loop 2 invariant forall s string :: (s in visited) && !old(StillIn(pools.ByName, a.allocated[s])) ==> a.allocated[s] == nil
+//@   loop 3 invariant lockstate(a.countersMutex) == 0 && Inv(a) && InvD(a) && a.pools == pools
+//@   loop 3 invariant pools.ByName != nil && PoolsKeyedOK(pools.ByName) && (forall n string :: (n in pools.ByName) == old(n in pools.ByName) && pools.ByName[n] == old(pools.ByName[n]))
+//@   assert before Unassign#2: [mine] a.allocated[svc] == alloc && alloc != nil
+//@   apply C03.holderSafe(a, svc) before Unassign#2
+//@   assert before Unassign#2: [safe0] SafeFor(a, svc, alloc)
+//@   assert after Unassign#2: [safe] SafeFor(a, svc, alloc)
+//@   assert after Unassign#2: [notRecorded] forall s string :: a.allocated[s] != alloc
